@@ -148,7 +148,7 @@ def generated(ctx):
         blocks = c19gen.diag_blocks(out)
         by_line = c19gen.attribute(blocks, os.path.basename(path))
         positive = "pos_" in p.tag
-        if rc not in (0, 1) and not blocks:
+        if "no such file" in out.lower() or "no input files" in out or (rc not in (0, 1) and not blocks):
             ctx.ob("C19.b" if not positive else "C19.c", p.tag, None,
                    detail="compiler failed abnormally (rc=%d) on %s: %s" % (rc, path, out[-300:]))
             continue
